@@ -130,7 +130,7 @@ class Lifecycle(Spec):
         self.init = ("pre", None, None, 0, False)
 
     def err(self, cid, msg):
-        if self.checks is None or cid in self.checks:
+        if self.checks is None or cid in self.checks or (cid.startswith("L11") and "L11" in self.checks):
             return Err("%s: %s" % (cid, msg))
         return None
 
@@ -170,7 +170,7 @@ class Lifecycle(Spec):
             return st
         if ev in ("sw:Res::Ok", "sw:Res::Err") and src == "refresh":
             if pending == "refreshres":
-                return S(pending=None) if ev.endswith("Ok") else S(phase="failed", pending=None)
+                return S(pending="restarted") if ev.endswith("Ok") else S(phase="failed", pending=None)
             return st
         if ev in ("sw:Res::Ok", "sw:Res::Err") and src in ("wrap", "task"):
             return st
@@ -179,6 +179,16 @@ class Lifecycle(Spec):
         if ev in running_needed and phase in ("pre", "starting", "startres"):
             return self.err("L2", "%s before started() completed successfully (phase %s)" % (ev, phase)) or st
 
+        if pending == "restarted":
+            if ev in ("call:next", "call:snext"):
+                pending = None
+                st = (phase, inflight, None, fin, draining)
+            elif ev in ("call:stopped", "call:finished", "call:notify", "ret") or ev.startswith("retval:"):
+                e14 = self.err("L14", "after a successful restart the loop does not carry on with the next message (%s)" % ev)
+                if e14:
+                    return e14
+                pending = None
+                st = (phase, inflight, None, fin, draining)
         if ev in ("call:next", "call:snext"):
             if phase != "run":
                 return self.err("L4", "dequeue after shutdown began (phase %s)" % phase) or st
@@ -288,11 +298,11 @@ class Lifecycle(Spec):
             return S(phase="notified")
         if ev == "retval:Ok":
             if phase != "notified":
-                return self.err("L11", "Ok result prepared in phase %s (must follow stopped() and the announcement)" % phase) or st
+                return self.err("L11a", "Ok result prepared in phase %s (must follow stopped() and the announcement)" % phase) or st
             return S(phase="okret")
         if ev in ("retval:Err", "retval:residual"):
             if phase in ("stoppedc", "stopped", "notified", "okret"):
-                return self.err("L11", "error result after the graceful shutdown sequence began") or st
+                return self.err("L11b", "error result after the graceful shutdown sequence began") or st
             if inflight:
                 return self.err("L7", "error return while a handler future is in flight") or st
             if draining:
@@ -300,7 +310,7 @@ class Lifecycle(Spec):
             return S(phase="failed", pending=None)
         if ev == "ret":
             if phase not in ("okret", "failed"):
-                return self.err("L11", "return in phase %s without a result path (graceful: stopped+announce; failure: error)" % phase) or st
+                return self.err("L11c", "return in phase %s without a result path (graceful: stopped+announce; failure: error)" % phase) or st
             return st
         return st
 
